@@ -744,6 +744,13 @@ def cli_classifier(inner, prefixes):
                                "map_connection_ids_from_iter): " + ",".join(rejected) +
                                f" (re-run: VERIF_CLI_BIN=harness/target-cli/release VERIF_CLI_WORK=work/x harness/target/debug/vharness cli {t[1].split('.')[0]} <n>)")
                 info["ignore"] = False
+            elif [d for d in rel if d.startswith("tokenize-mecab-tokens-differ")]:
+                # C19: the MeCab-style output of the real `tokenize` program, read as a corpus, is not the tokenizer's tokens
+                t = line.split()
+                info["prop_fail"] = "tokenize-output-is-not-the-tokenizers-tokens"
+                info["why"] = ("what the real `tokenize -O mecab` printed parses as a corpus whose tokens differ from the tokenizer's tokens for the "
+                               f"input lines (re-run: VERIF_CLI_BIN=harness/target-cli/release VERIF_CLI_WORK=work/x harness/target/debug/vharness cli {t[1].split('.')[0]} <n>)")
+                info["ignore"] = False
             elif rel:
                 t = line.split()
                 info["corr_fail"] = ("a command-line program disagrees with the library call it wraps: " + ",".join(rel) +
